@@ -1,6 +1,64 @@
-From Coq Require Import List String.
-From GinV Require Import Model.Values Model.Gin.
+(* C12 — finalize locks the configuration; unlock_config always restores the lock.
+   Statements only; proofs in Proofs/MachineProofs.v. *)
+From Coq Require Import List String ZArith Bool.
+From GinV Require Import Lib.Out Model.SelectorMap Model.Values Model.Gin Model.GinEngine
+                         Proofs.MachineFrame Proofs.MachineProofs.
 Import ListNotations.
-Theorem C12_placeholder : prefixes [1;2] = [[]; [1]; [1;2]].
-Proof. reflexivity. Qed.
-Print Assumptions C12_placeholder.
+Open Scope string_scope.
+Open Scope list_scope.
+
+(* once locked, every binding path, registration and finalize raise and change nothing (whole state) *)
+Theorem C12_locked_frame : forall f s o, locked s = true ->
+  ((exists k v, o = OBind k v) \/ (exists a b c v, o = OBindT a b c v) \/ (exists k v, o = OParse k v) \/
+   (exists c, o = ORegister c) \/ o = OFinalize) ->
+  exists e, exec (S f) s o = (s, Raise e).
+Proof. exact locked_bind_frame. Qed.
+
+(* leaving an unlock_config block by ANY path (body may raise, finalize, clear, nest) restores the entry value *)
+Theorem C12_unlock_restores : forall fuel s body s' r,
+  exec fuel s (OUnlock body) = (s', r) -> locked s' = locked s.
+Proof. exact unlock_restores_lock_strong. Qed.
+
+Theorem C12_finalize_ok_locks : forall s s', finalize s = (s', Ok tt) -> locked s' = true /\ locked s = false.
+Proof. exact finalize_ok_locks. Qed.
+
+(* a rejected finalize leaves the configuration unlocked and unmodified *)
+Theorem C12_finalize_reject_atomic : forall s s' e, finalize s = (s', Raise e) ->
+  config s' = config s /\ locked s' = locked s /\ reg s' = reg s /\ scopes s' = scopes s /\ hooks s' = hooks s.
+Proof. exact finalize_reject_atomic. Qed.
+
+Theorem C12_finalize_twice : forall s, locked s = true -> finalize s = (s, Raise "RuntimeError").
+Proof. exact finalize_twice. Qed.
+
+(* two hooks updating the same parameter, however each spells it, are never both applied *)
+Theorem C12_hook_conflict : forall s hs1 kvs1 hs2 kvs2 hs3 k1 v1 k2 v2 p,
+  In (k1, v1) kvs1 -> In (k2, v2) kvs2 ->
+  (let '(a, b, c) := parse_binding_key k1 in pbk_validate s a b c) = Ok p ->
+  (let '(a, b, c) := parse_binding_key k2 in pbk_validate s a b c) = Ok p ->
+  exists e, collect_hooks s (hs1 ++ HReturn kvs1 :: hs2 ++ HReturn kvs2 :: hs3) [] = Raise e.
+Proof. exact hook_conflict_rejected. Qed.
+
+(* unbound / unevaluated macros and references to unknown configurables are rejected *)
+Theorem C12_builtin_hooks : forall s, locked s = false ->
+  (macros_hook_ok s = false \/ unknown_refs_hook_ok s = false) ->
+  exists s', finalize s = (s', Raise "ValueError").
+Proof. exact finalize_builtin_hooks. Qed.
+
+Theorem C12_clear_unlocks : forall s b s' r, clear_config s b = (s', r) ->
+  locked s' = false /\ config s' = [] /\ singletons s' = [] /\ reg s' = reg s /\ hooks s' = hooks s.
+Proof. exact clear_unlocks. Qed.
+
+(* non-vacuity: a history that finalizes, then raises inside an unlock block, stays locked *)
+Example C12_nonvacuous :
+  let s := run_top 50 init_state [OFinalize; OUnlock [OLocked; ORaise]; OLocked] in
+  locked s = true /\ rev (obs s) = [ONone; OB false; OErr "KeyError"; OB true].
+Proof. vm_compute. split; reflexivity. Qed.
+
+Print Assumptions C12_locked_frame.
+Print Assumptions C12_unlock_restores.
+Print Assumptions C12_finalize_ok_locks.
+Print Assumptions C12_finalize_reject_atomic.
+Print Assumptions C12_finalize_twice.
+Print Assumptions C12_hook_conflict.
+Print Assumptions C12_builtin_hooks.
+Print Assumptions C12_clear_unlocks.
